@@ -60,6 +60,9 @@ class QueueGen:
                             "zit_next", "enqueue 2 o=1", "zit_new o=0 o2=1", "zit_replace 3 4", "zit_next", "zit_replace 5 6",
                             "zit_next", "destroy"])
         out.append(["new_default", "enqueue 1", "enqueue 2", "poll", "peek", "poll", "poll", "destroy"])
+        # default constructor = C library triple for the header, the inner deque and every re-allocation
+        out.append(["new_default"] + [f"enqueue {i}" for i in range(1, 20)] + ["poll"] * 5 +
+                   ["it_new", "it_next", "it_replace 9", "foreach", "destroy_cb", "destroy"])
         out.append(["new cap=2", "enqueue 1", "enqueue 2", "it_new", "it_replace 5", "zit_next", "destroy_cb"])
         return out
 
@@ -79,13 +82,18 @@ class QueueGen:
             cc = rng.choice([0, 1, 2, 3, 4, 5, 7, 8, 9, 16, 17])
             sims = [Sim(cc), None]
             ops = [f"new cap={cc}"]
+            default_obj = False
+            if focus in (None, "growth", "all") and rng.random() < 0.06:
+                sims[0] = Sim(8)
+                ops = ["new_default"]
+                default_obj = True
             length = rng.randint(1, 90 if focus != "growth" else 300)
             p_enq = rng.choice([0.3, 0.5, 0.55, 0.7, 0.9])
             if focus in ("growth", "fault"):
                 p_enq = rng.choice([0.6, 0.8, 0.95])
             if focus == "reject":                   # mostly near-empty queues: poll/peek on empty are the rejected calls
                 p_enq = rng.choice([0.2, 0.35, 0.5])
-            allow_fail = focus == "all"
+            allow_fail = focus == "all" and not default_obj   # the C library triple is never refused
             for _ in range(length):
                 r = rng.random() if focus != "growth" else max(rng.random(), 0.061)
                 q = sims[0]
